@@ -137,6 +137,7 @@ def run_threaded(kind, seed, script, rt=3.0, answer=0.1, hold=0.0):
         i = 0
         script = list(script)
         disconnected = False
+        stop_now = False
         while i < len(script):
             while i < len(script) and script[i] in CONNECT:
                 outcomes.append(script[i])
@@ -145,6 +146,10 @@ def run_threaded(kind, seed, script, rt=3.0, answer=0.1, hold=0.0):
                 break
             tok = script[i]
             i += 1
+            if tok == "stop":
+                vt_sleep(sim.rng.choice([0.0, 0.3, rt * 0.5, rt * 1.5]))
+                stop_now = True
+                break
             # wait for a live connection (bounded): a missing reconnect must not hang the script
             t_end = sim.now + 6 * rt + 5
             while sim.now < t_end and not (live() is not None and made_for(live())):
@@ -189,7 +194,7 @@ def run_threaded(kind, seed, script, rt=3.0, answer=0.1, hold=0.0):
                 while sim.now < t_end and not d.closed:
                     vt_sleep(0.25)
         # let pending reconnects play out, then stop
-        if not disconnected:
+        if not disconnected and not stop_now:
             t_end = sim.now + 7 * rt + 5
             while sim.now < t_end and not (live() is not None and made_for(live())):
                 vt_sleep(0.25)
@@ -198,7 +203,8 @@ def run_threaded(kind, seed, script, rt=3.0, answer=0.1, hold=0.0):
                 sim.ev("ACTION", "traffic", d.cid)
                 feed(d, REQ)
                 vt_sleep(1.0)
-        vt_sleep(sim.rng.choice([0.1, rt * 0.4, rt * 1.3]) + hold)
+        if not stop_now:
+            vt_sleep(sim.rng.choice([0.1, rt * 0.4, rt * 1.3]) + hold)
         sim.ev("STOPPING")
         gw.stop()
         sim.ev("STOPPED")
@@ -242,13 +248,13 @@ class FakeT:
     def _lost(self, exc):
         if not self.lost_called:
             self.lost_called = True
-            self.log.add("DEV-CLOSE", self.cid)
             self.p.connection_lost(exc)
 
     def close(self):
         if self.closing:
             return
         self.closing = True
+        self.log.add("DEV-CLOSE", self.cid)
         self.loop.call_soon(self._lost, None)
 
     def abort(self):
@@ -274,6 +280,7 @@ class FakeT:
         if self.closing:
             return
         self.closing = True
+        self.log.add("DEV-CLOSE", self.cid)
         self.loop.call_soon(self._lost, exc)
 
 
@@ -295,6 +302,10 @@ def run_async(kind, seed, script, rt=3.0, answer=0.1, hold=0.0):
 
     def new_transport(factory):
         p = factory()
+        if p is None:
+            # as in asyncio: the transport constructor does loop.call_soon(protocol.connection_made, ...) and fails
+            log.add("CONNECT-END", "fail")
+            raise AttributeError("'NoneType' object has no attribute 'connection_made'")
         t = FakeT(loop, p, len(devs) + 1, log, answer)
         devs.append(t)
         log.add("CONNECT-END", "ok", t.cid)
@@ -359,6 +370,7 @@ def run_async(kind, seed, script, rt=3.0, answer=0.1, hold=0.0):
             i = 0
             sc = list(script)
             disconnected = False
+            stop_now = False
             while i < len(sc):
                 while i < len(sc) and sc[i] in CONNECT:
                     outcomes.append(sc[i])
@@ -367,6 +379,10 @@ def run_async(kind, seed, script, rt=3.0, answer=0.1, hold=0.0):
                     break
                 tok = sc[i]
                 i += 1
+                if tok == "stop":
+                    await asyncio.sleep(rng.choice([0.0, 0.3, rt * 0.5, rt * 1.5]))
+                    stop_now = True
+                    break
                 t_end = loop.time() + 6 * rt + 5
                 while loop.time() < t_end and not (live() is not None and made_for(live())):
                     await asyncio.sleep(0.25)
@@ -395,7 +411,7 @@ def run_async(kind, seed, script, rt=3.0, answer=0.1, hold=0.0):
                     t_end = loop.time() + 3 * rt + 2
                     while loop.time() < t_end and not d.closing:
                         await asyncio.sleep(0.25)
-            if not disconnected:
+            if not disconnected and not stop_now:
                 t_end = loop.time() + 7 * rt + 5
                 while loop.time() < t_end and not (live() is not None and made_for(live())):
                     await asyncio.sleep(0.25)
@@ -404,7 +420,8 @@ def run_async(kind, seed, script, rt=3.0, answer=0.1, hold=0.0):
                     log.add("ACTION", "traffic", d.cid)
                     d.feed(REQ)
                     await asyncio.sleep(1.0)
-            await asyncio.sleep(rng.choice([0.1, rt * 0.4, rt * 1.3]) + hold)
+            if not stop_now:
+                await asyncio.sleep(rng.choice([0.1, rt * 0.4, rt * 1.3]) + hold)
             log.add("STOPPING")
             await gw.stop()
             # asyncio delivers the loss of the connection closed by stop() on the next loop iterations:
@@ -414,6 +431,9 @@ def run_async(kind, seed, script, rt=3.0, answer=0.1, hold=0.0):
             log.add("STOPPED")
             if not start_task.done():
                 start_task.cancel()
+            else:
+                if not start_task.cancelled() and start_task.exception() is not None:
+                    meta["start_raised"] = repr(start_task.exception())[:120]
             await asyncio.sleep(6 * rt + 10)
             log.add("END")
 
@@ -456,10 +476,12 @@ def check(events, meta):
     if len(made) != len(established):
         V.append((f"made-count:{'more' if len(made) > len(established) else 'fewer'}",
                   f"{len(established)} connections established, on_conn_made called {len(made)} times"))
-    # (2) lost once per lost connection (after stop every established connection is over)
-    if idx_stop is not None and len(lost) != len(established):
-        V.append((f"lost-count:{'more' if len(lost) > len(established) else 'fewer'}",
-                  f"{len(established)} connections established and all over after stop(), on_conn_lost called {len(lost)} times"))
+    # (2) lost once per lost connection: every connection that ended (closed by the library, the peer or an error)
+    ended = {e[2] for e in events if e[1] == "DEV-CLOSE"}
+    if idx_stop is not None and len(lost) != len(ended):
+        V.append((f"lost-count:{'more' if len(lost) > len(ended) else 'fewer'}",
+                  f"{len(established)} connections established, {len(ended)} of them over after stop(), on_conn_lost called {len(lost)} times"))
+    meta["open_after_stop"] = len(established) - len(ended)
     # (3) a reconnect attempt follows every loss the user did not request
     user_off = next((i for i, e in enumerate(events) if e[1] == "ACTION" and e[2] == "disconnect"), None)
     idx_stopping = next((i for i, e in enumerate(events) if e[1] == "STOPPING"), len(events))
